@@ -250,8 +250,10 @@ func (rl *Shell) historyCompletion(forward, filterLine, substring bool) {
 		}
 
 		if substring {
-			rl.completer.GenerateWith(completer)
+			// Enter the search mode first: the line to come back to is the one being
+			// edited now, and a history with a single entry must not be accepted at once.
 			rl.completer.IsearchStart(rl.History.Name(), true, true)
+			rl.completer.GenerateWith(completer)
 		} else {
 			rl.startMenuComplete(completer)
 			rl.completer.AutocompleteForce()
